@@ -411,7 +411,10 @@ class StmtMixin(object):
         if f is None or f.contract is None:
             return None
         k = f.loop_ordinals.get(id(node))
-        return f.contract.loops.get(k)
+        spec = f.contract.loops.get(k)
+        if spec is not None and spec.only_cases is not None and f.verifying and not spec.only_cases(getattr(self, "_case", None) or {}):
+            return None
+        return spec
 
     def assigned_names(self, stmts):
         names = []
@@ -650,6 +653,9 @@ class StmtMixin(object):
             gname, gtype = yg
             dflt = (lambda: fresh_of_type(self, gtype, "nil"))
             env.set(gname, YieldTrace().as_symseq(self, default=dflt))
+        le = Env(parent=env.parent, module=env.module)
+        le.vars = dict(env.vars)           # bindings at the first arrival (immutable values; objects are shared)
+        self.frame.loop_entry_env = le
         self.check_invariants(spec, env, "establish")
         if self.path.nondet("loop%d" % spec.ordinal):
             self.havoc_loop(spec, node.body, env)
